@@ -622,6 +622,8 @@ func c05Concretize(b *c05Base, c *c05CCase) []byte {
 		put32(data, b.hdrLen, size+rt.V1Page)
 	case "near32":
 		put32(data, b.hdrLen, 0xfffffff0)
+	case "wrappage":
+		put32(data, b.hdrLen, 0xffffc000)
 	}
 	switch c.HeadE {
 	case "ok":
@@ -794,6 +796,8 @@ func c05LimitClass(b *c05Base, data []byte) string {
 		return "table"
 	case lim >= 0xffffffe0:
 		return "near32"
+	case lim > 0xffffc000-4200:
+		return "wrappage"
 	case int64(lim) > int64(len(data)):
 		return "beyondfile"
 	case lim < maxEnd:
